@@ -216,7 +216,8 @@ def call_function(fr, qual, args, kw, extra, n, nself=0):
         r = ov(fr, bound, n)
         if r is not None:
             return r
-    if not ctx.inline or fr.depth >= ctx.max_depth or qual in ctx.no_inline or short in ctx.no_inline or ctx.is_foreign(qual):
+    if not ctx.inline or fr.depth >= ctx.max_depth or qual in ctx.no_inline or short in ctx.no_inline or ctx.is_foreign(qual) \
+            or (ctx.inline_only is not None and not ctx.inline_only(fn)):
         res = canonical_call(fr, fn, bound, extra)
         ev['result'] = res
         return res
